@@ -5,6 +5,7 @@ from math import prod
 from typing import Callable, Dict, List, Optional, Tuple, Union
 
 import jax.numpy as jnp
+import numpy as np
 import pandas as pd
 
 from jaxley.modules import Module
@@ -30,7 +31,10 @@ def build_init_and_step_fn(
             a single integration step, respectively.
     """
     # Initialize the external inputs and their indices.
-    external_inds = module.external_inds.copy()
+    external_inds = {
+        key: module._index_within_synapse_type(key, inds)
+        for key, inds in module.external_inds.items()
+    }
 
     def init_fn(
         params: List[Dict[str, jnp.ndarray]],
@@ -228,11 +232,20 @@ def integrate(
 
     for key in externals.keys():
         externals[key] = externals[key].T  # Shape `(time, num_stimuli)`.
+        # Clamps of synaptic states refer to the synapse by its global edge index.
+        external_inds[key] = module._index_within_synapse_type(key, external_inds[key])
 
     if module.recordings.empty:
         raise ValueError("No recordings are set. Please set them.")
     rec_inds = module.recordings.rec_index.to_numpy()
     rec_states = module.recordings.state.to_numpy()
+    # Recordings of synaptic states refer to the synapse by its global edge index.
+    rec_inds = np.asarray(
+        [
+            module._index_within_synapse_type(rec_state, rec_ind)
+            for rec_state, rec_ind in zip(rec_states, rec_inds)
+        ]
+    )
 
     # Shorten or pad stimulus depending on `t_max`.
     if t_max is not None:
